@@ -106,7 +106,7 @@ def mutate(ad0, kind, r):
         for L, d in ds:
             if d['ports']:
                 p = r.choice(d['ports'])
-                p['direction'] = r.choice([x for x in designs.DIRS if x != p['direction']])
+                p['direction'] = r.choice([x for x in designs.DIRS + ('UNDEFINED',) if x != p['direction']])
                 return ad
     elif kind == 'port-width-plus':
         for L, d in ds:
@@ -431,6 +431,9 @@ def case(ad, f):
         res = compare(n, n2)
         f.stats['mutations'] += 1
         f.check(res is not None, 'C20.reject', m, 'compare() accepted a copy that differs by: %s' % m, mutation=m, mutation_seed=seed * 31 + k)
+        res = compare(n2, n)        # the difference must be seen from either side
+        f.stats['mutations'] += 1
+        f.check(res is not None, 'C20.reject', m + ':reversed', 'compare() accepted (copy as first argument) a copy that differs by: %s' % m, mutation=m, mutation_seed=seed * 31 + k)
 
 
 def profile_for(seed):
